@@ -2,11 +2,12 @@ CFG = {
     "prop_v": "theories/Properties/C17.v",
     "cmd": "c17",
     "batches": lambda tier, seed: [("exhaustive", "-mode exhaustive -tier %s" % tier),
-                                   ("random", "-mode random -tier %s" % tier)],
+                                   ("random", "-mode random -tier %s" % tier),
+                                   ("big", "-mode big -tier %s" % tier)],
     "signatures": {},
     "rule": "exhaustive: every Union sequence up to the length bound over n<=4 (arguments from -1..n, i.e. invalid ones included) "
             "x 3 implementations, each followed by the full battery Count / Find p / IsConnected p q for all p,q in -1..n; "
-            "random: n<=64, chain/star/uniform union shapes with invalid arguments mixed in, queries interleaved. "
+            "big: n in {257,1000,4096,4101,5003,...} (not multiples of small powers of two) with unions through the last elements, long chains, self unions and the degenerate constructors n=0,1; random: n<=64, chain/star/uniform union shapes with invalid arguments mixed in, queries interleaved. "
             "A case is non-trivial when at least two unions were effective (merged two classes); distinct = distinct (impl,n,union list).",
     "assumptions": ["Go int arithmetic does not overflow for n < 2^62 (indices are compared, never added)",
                     "the model's Find loop runs on fuel n; C17_find proves the fuel is never exhausted"],
